@@ -4,7 +4,7 @@ from hypothesis import strategies as st
 
 from .. import gen
 from ..exec import Exec
-from ..programs import NOVALUE
+from ..programs import NOVALUE, control
 
 ID = 'C01'
 LEVEL = 'exploration'
@@ -55,6 +55,8 @@ def enumerate_cases(tier, scope):
                 for occ in (1, 2):
                     for pos in ('pre', 'post'):
                         for do in (['kill', 'hk'], ['pause', 'hp'], ['fail', 'hf'], ['play', None]):
+                            if do[0] == 'fail' and hook not in gen.FAIL_HOOK_SITES:
+                                continue
                             for sched in ([], [['tick', 1], ['pause', 'p']], [['tick', 2], ['kill', 'k']]):
                                 yield {'program': gen.CATALOGUE[name], 'schedule': sched, 'hooks': [{'hook': hook, 'occ': occ, 'pos': pos, 'do': do}]}
         return
@@ -126,7 +128,7 @@ def execute(case):
         was_terminated = False
         last = None
         for i, smp in enumerate(ex.samples):
-            why, state, _paused, _status, _killing, terminated, _fd, _td = smp
+            why, state, _paused, _status, _killing, terminated, _fd, _td = smp[:8]
             if last is not None and state != last and not _reachable(last, state):
                 v('illegal-sampled-change', f'state went {last} -> {state} at sample {i} ({why})')
             if terminal_seen is not None and state != terminal_seen:
@@ -140,6 +142,37 @@ def execute(case):
                 terminal_seen = state
             was_terminated = was_terminated or terminated
             last = state
+        # the outcome of a terminated process (exception object, kill text, result) never changes either
+        first_sig = None
+        for i, smp in enumerate(ex.samples):
+            sig = smp[8]
+            if sig is None:
+                continue
+            if first_sig is None:
+                first_sig = sig
+            elif sig != first_sig:
+                v('terminal-outcome-changed', f'sample {i} ({smp[0]}): outcome {sig[:2]} was {first_sig[:2]}')
+                break
+        # a copy loaded from a checkpoint of the terminated process is just as final
+        if ex.proc.has_terminated() and not viol:
+            from plumpy import persistence
+
+            try:
+                with ex.loop.as_running():
+                    loaded = persistence.Bundle(ex.proc).unbundle(persistence.LoadSaveContext(loop=ex.loop))
+                before = (loaded.state.value, ex.samples[-1][8][:2])
+                from ..exec import outcome_signature
+
+                sig0 = outcome_signature(loaded)
+                for what, arg in (('pause', 'pm'), ('play', None), ('kill', 'pm'), ('fail', 'pm'), ('play', None)):
+                    with ex.loop.as_running():
+                        control(loaded, what, arg, who='postmortem-loaded')
+                    ex.loop.drain(200)
+                    if loaded.state.value != before[0] or outcome_signature(loaded) != sig0:
+                        v('loaded-terminal-not-final', f'{what} on a process loaded from its terminal checkpoint changed {before[0]} / {sig0[:2]} to {loaded.state.value} / {outcome_signature(loaded)[:2]}')
+                        break
+            except Exception as exc:  # noqa: BLE001 - saving/loading is C07's business
+                classes.append('loaded-copy-unavailable:' + type(exc).__name__)
         if not ex.proc.has_terminated():
             # the post-mortem burst contains kill and fail: a live process here is someone else's property (C04),
             # C01 only notes it
